@@ -168,6 +168,14 @@ Theorem C06_inflated_string_rejected : forall e k n sid fds1 fd fds2 vs1 (four :
   tfin n e (TStruct sid) = true -> (tneed n e (TStruct sid) + k <= 64)%nat ->
   decode e sid (enc_fields e vs1 fds1 ++ (if four then head tSTR4 (ftag fd) ++ be 4 l else head tSTR1 (ftag fd) ++ [l]) ++ r) = DErr.
 Proof. exact PrefixProofs.inflated_string_rejected. Qed.
+(* the hand-written table of admissible wire types (adm) is exactly the acceptance set of the decoder model: for every
+   non-struct type shape and each of the 16 wire type codes, a field of that wire type followed by a zero body is
+   refused iff adm says "not admissible" (by evaluation; with C06_inadmissible_member the table cannot drift from the
+   model's readers, which are tied to the Go readers by Xlate/ReaderEquiv.v and the correspondence) *)
+Theorem C06_adm_is_acceptance :
+  forallb (fun t => forallb (fun wt => Bool.eqb (adm_probe t wt) (adm t wt && negb (wt =? tSE))) (map N.of_nat (seq 0 16))) adm_types = true.
+Proof. exact DamageProofs.adm_is_acceptance. Qed.
+
 (* NEVER MADE-UP DATA, typing half: whatever the input (any bytes < 256, shorter than 2^31) and whatever the target
    held, a value the decoder returns is a value of the struct's IDL type - every integer within the range of its Go
    type (no wrong sign extension, no wrap), float bit patterns of the member's width, strings and byte vectors no
@@ -247,3 +255,4 @@ Print Assumptions C06_damage_examples.
 Print Assumptions C06_decode_typed.
 Print Assumptions C06_code_schemas_decode_typed.
 Print Assumptions C06_scalar_typed.
+Print Assumptions C06_adm_is_acceptance.
